@@ -97,3 +97,42 @@ func c11Ret(st ast.Stmt) string {
 	}
 	return exprStringStmt(st)
 }
+
+// verifier.doVerifyVP: top-level statement chain, and every statement of the loop over the presented credentials
+func extractC11VP(l *lean) {
+	_, verF := parseFile("vcr/verifier/verifier.go")
+	fn := c11Method(verF, "verifier", "doVerifyVP")
+	conds, _ := c11IfChain(fn)
+	if fn != nil {
+		for _, st := range fn.Body.List {
+			if is, ok := st.(*ast.IfStmt); ok {
+				if ei, ok := is.Else.(*ast.IfStmt); ok {
+					conds = append(conds, "else-if-of("+c11Call(is.Cond)+"): "+c11Call(ei.Cond))
+				}
+			}
+		}
+	}
+	l.def("verifyVPChain", "List String", leanStrList(conds), conds)
+	var loop []string
+	if fn != nil {
+		ast.Inspect(fn.Body, func(n ast.Node) bool {
+			if rs, ok := n.(*ast.RangeStmt); ok {
+				loop = append(loop, "range "+c11Call(rs.X))
+				ast.Inspect(rs.Body, func(m ast.Node) bool {
+					switch x := m.(type) {
+					case *ast.AssignStmt:
+						loop = append(loop, exprStringStmt(x))
+					case *ast.IfStmt:
+						loop = append(loop, "if "+c11Call(x.Cond))
+					case *ast.ReturnStmt:
+						loop = append(loop, c11Ret(x))
+					}
+					return true
+				})
+				return false
+			}
+			return true
+		})
+	}
+	l.def("verifyVPLoop", "List String", leanStrList(loop), loop)
+}
